@@ -68,11 +68,18 @@ pub struct Cfg {
     /// runs on it - what a cache keyed by address / length / extent would get wrong
     #[serde(default)]
     pub inplace: bool,
+    /// simulated clock of the run (S5): 0 = reference clock (+1 ns per reading); otherwise the
+    /// seed of start, rate, skew and jumps
+    #[serde(default)]
+    pub clock_seed: u64,
+    /// simulated number of CPUs the machine reports (S6): 0 = reference (1 CPU)
+    #[serde(default)]
+    pub cpus: usize,
 }
 
 impl Cfg {
     pub fn reference() -> Cfg {
-        Cfg { workers: 1, strategy: "sequential".into(), sched_seed: 0, hash_seed: 0, addr_seed: None, prefix: vec![], from_worker: false, decisions: None, repeat: false, callers: 1, callers_other: false, inplace: false }
+        Cfg { workers: 1, strategy: "sequential".into(), sched_seed: 0, hash_seed: 0, addr_seed: None, prefix: vec![], from_worker: false, decisions: None, repeat: false, callers: 1, callers_other: false, inplace: false, clock_seed: 0, cpus: 0 }
     }
 }
 
@@ -115,6 +122,7 @@ pub struct RunInfo {
     pub report: Report,
     pub key_draws: u64,
     pub alloc: seams::AllocStats,
+    pub env: seams::EnvStats,
     pub solver_calls: usize,
 }
 
@@ -150,6 +158,7 @@ pub fn run_one(sc: &Scenario, op: &'static OpDef, input: &Input, prefix_inputs: 
     let calls0 = geo::algorithm::bool_ops::verif_hooks::solver_calls();
     seams::set_hash_seed(cfg.hash_seed);
     seams::begin_run(cfg.addr_seed);
+    seams::begin_env(cfg.clock_seed, cfg.cpus);
     let scfg = sim::Config {
         workers: cfg.workers,
         strategy: strategy_of(&cfg.strategy),
@@ -241,11 +250,13 @@ pub fn run_one(sc: &Scenario, op: &'static OpDef, input: &Input, prefix_inputs: 
         }
     };
     seams::end_run();
+    seams::end_env();
     let info = RunInfo {
         wall_us: t_run.elapsed().as_micros() as u64,
         report,
         key_draws: seams::hash_draws(),
         alloc: seams::alloc_stats(),
+        env: seams::env_stats(),
         solver_calls: geo::algorithm::bool_ops::verif_hooks::solver_calls() - calls0,
     };
     (outcome, info)
@@ -415,6 +426,8 @@ pub fn gen_cfg(seed: u64, v: u64) -> Cfg {
         callers: if rng.chance(1, 6) { 2 + rng.below(2) } else { 1 },
         callers_other: rng.chance(1, 2),
         inplace: rng.chance(1, 6),
+        clock_seed: if rng.chance(1, 2) { rng.next_u64() | 1 } else { 0 },
+        cpus: if rng.chance(1, 2) { *rng.pick(&[1usize, 2, 3, 4, 6, 8, 12, 16, 24, 32, 64, 128]) } else { 0 },
     }
 }
 
@@ -537,6 +550,8 @@ fn minimise(sc: &Scenario, cfg: &Cfg) -> Option<Minimised> {
     try_reset("callers", &|c| c.callers = 1, &mut cfg);
     try_reset("callers_other", &|c| c.callers_other = false, &mut cfg);
     try_reset("inplace", &|c| c.inplace = false, &mut cfg);
+    try_reset("clock", &|c| c.clock_seed = 0, &mut cfg);
+    try_reset("cpus", &|c| c.cpus = 0, &mut cfg);
     try_reset("addr", &|c| c.addr_seed = None, &mut cfg);
     try_reset("hash", &|c| c.hash_seed = 0, &mut cfg);
     try_reset(
@@ -568,6 +583,12 @@ fn minimise(sc: &Scenario, cfg: &Cfg) -> Option<Minimised> {
     }
     if cfg.inplace {
         needed.push("inplace-history");
+    }
+    if cfg.clock_seed != 0 {
+        needed.push("clock");
+    }
+    if cfg.cpus != 0 {
+        needed.push("cpus");
     }
     if cfg.addr_seed.is_some() {
         needed.push("addr");
@@ -707,6 +728,15 @@ fn account(t: &mut Tot, sc: &Scenario, cfg: &Cfg, info: &RunInfo) {
     t.add("arena_allocs", info.alloc.arena_allocs);
     t.add("shuffled_allocations", info.alloc.shuffled_choices);
     t.add("solver_seam_calls", info.solver_calls as u64);
+    t.add("clock_reads", info.env.clock_reads);
+    t.add("clock_jumps", info.env.clock_jumps);
+    t.add("cpu_count_queries", info.env.cpu_queries);
+    if cfg.clock_seed != 0 {
+        t.add("runs_with_clock_variant", 1);
+    }
+    if cfg.cpus > 1 {
+        t.add("runs_with_cpu_count_variant", 1);
+    }
     t.max("arena_abandoned_bytes", info.alloc.abandoned_bytes);
     t.max("arena_exhausted", info.alloc.exhausted);
     t.max("max_decisions_in_a_run", s.steps);
